@@ -277,7 +277,10 @@ class C09(Prop):
             # an interface-aware semantics with a random io assignment, on the modular and on the inlined form
             from rtverif.props.c06 import SEMS
             case['ia'] = [rng.choice(SEMS[1:]), dict((k, rng.choice(['input', 'output'])) for k in names)]
-        if case['style'] == 'add_sub_spec' and defs and not case.get('bound_consts') and rng.random() < 0.12:
+        if case['style'] == 'add_sub_spec' and defs and not case.get('bound_consts') and rng.random() < 0.12 and not (
+                lang.ops_of(f) & set(['div', 'ln', 'log', 'sqrt', 'pow', 'exp'])):
+            # (no operator with a restricted domain: rtamt keeps - and evaluates - the assertions of the earlier parse,
+            # in which the names still have their earlier definitions; a domain error there is not this property's)
             # the object was parsed with *another* definition of one or all of the names before (parse(), then
             # add_sub_spec() with the final definition, main text untouched, parse() again): the last definition counts
             case['redefined'] = [rng.random() < 0.6 for _ in defs]
